@@ -453,7 +453,7 @@ func runC03(r *Report, rng *rand.Rand, thorough bool) {
 				var args []json.RawMessage
 				for _, n := range names {
 					v := randVal()
-					vals[n] = v
+					vals[normVarName(n)] = v // the builder's argument names are the Go spellings of the variables (userId1 for user_id1)
 					b, _ := json.Marshal(v)
 					args = append(args, b)
 				}
@@ -611,8 +611,8 @@ func runC03(r *Report, rng *rand.Rand, thorough bool) {
 				continue // dispatch deviations of the routers are judged on the request scenarios above
 			}
 			for _, v := range cm.rt.vars() {
-				if got := pathArg(hs[0], v); got != cm.vals[v] {
-					r.Violate("client_path_argument_under_wrong_name", fmt.Sprintf("%s %s: client argument %s = %q, the handler received %s = %q (request path %s)", cm.fw, cm.rt.path(), v, cm.vals[v], v, got, wirePath(res)), replay)
+				if got := pathArg(hs[0], v); got != cm.vals[normVarName(v)] {
+					r.Violate("client_path_argument_under_wrong_name", fmt.Sprintf("%s %s: client argument %s = %q, the handler received %s = %q (request path %s)", cm.fw, cm.rt.path(), v, cm.vals[normVarName(v)], v, got, wirePath(res)), replay)
 					break
 				}
 			}
